@@ -6,7 +6,7 @@
 # Usage: tools/sensitivity.sh [patch files...]   (default: all)
 set -u
 VERIF="$(cd "$(dirname "$0")/.." && pwd)"
-S=/tmp/sens
+S=/tmp/sens.$$
 rm -rf "$S"; mkdir -p "$S/sim/.cargo" "$S/out"
 trap 'rm -rf "$S"' EXIT
 sed "s#path = \"/repo\"#path = \"$S/repo\"#" "$VERIF/sim/Cargo.toml" > "$S/sim/Cargo.toml"
@@ -54,6 +54,17 @@ for p in "${patches[@]}"; do
     if ! echo "$line" | grep -q " $c=CAUGHT"; then missed=$((missed+1)); line="$line  <-- expected $c to catch"; fi
   done
   echo "$line"
+  # with ALL=1 the full detection picture is recorded next to a seeded patch
+  if [ "${ALL:-0}" = "1" ] && [[ "$p" == */seeded/* ]]; then
+    python3 - "$line" "$(dirname "$p")/detected.json" <<'PY'
+import sys,re,json
+line,out=sys.argv[1],sys.argv[2]
+caught={m.group(1):m.group(2) for m in re.finditer(r"(C\d+)=CAUGHT\(([^)]*)\)",line)}
+missed=re.findall(r"(C\d+)=missed",line)
+other=re.findall(r"(C\d+)=(rc\d+)",line)
+json.dump({"quick_tier_of_every_check":{"caught_by":caught,"not_caught_by":missed,"process_died":dict(other)}},open(out,"w"),indent=1)
+PY
+  fi
 done
 echo "sensitivity: $total patches, $missed expected catches missed"
 [ $missed -eq 0 ]
